@@ -9,11 +9,14 @@ import (
 	"encoding/json"
 	"errors"
 	"fmt"
+	"github.com/osteele/liquid/render"
 	"hash/fnv"
 	"math/rand"
 	"os"
 	"path/filepath"
+	"reflect"
 	"runtime"
+	"sort"
 	"strings"
 
 	"github.com/osteele/liquid"
@@ -44,7 +47,7 @@ func (r *result) put(obs J) {
 		obs["msg"] = r.Msg
 		obs["srcerr"] = r.IsSrcErr
 	}
-	if r.Outcome == "unstable" || r.Outcome == "repdiff" {
+	if r.Outcome == "unstable" || r.Outcome == "repdiff" || r.Outcome == "snapdiff" {
 		obs["msg"] = r.Msg
 	}
 	if r.Outcome == "panic" {
@@ -108,6 +111,120 @@ type renderSetup struct {
 	line0    int
 	root     string // temp dir holding the case's files, or ""
 	repeat   int    // how many times the parsed template is rendered (results must agree)
+	snaps    *snapRecorder
+}
+
+// snapRecorder collects what the harness's own tag {% lqh_snap name label %} sees: the Go value bound to the name at
+// that point (render.Context.Bindings).  Snaps are placed in pairs around loops: what a loop variable (or forloop)
+// is bound to after the loop must be the very value it was bound to before.
+type snapRecorder struct {
+	byLabel map[string][]any
+}
+
+func (sr *snapRecorder) tag(c render.Context) (string, error) {
+	f := strings.Fields(c.TagArgs())
+	if len(f) == 2 {
+		sr.byLabel[f[1]] = append(sr.byLabel[f[1]], c.Bindings()[f[0]])
+	}
+	return "", nil
+}
+
+// firstDiff returns a description of the first before/after pair that is not the same Go value.
+func (sr *snapRecorder) firstDiff() string {
+	labels := make([]string, 0, len(sr.byLabel))
+	for l := range sr.byLabel {
+		labels = append(labels, l)
+	}
+	sort.Strings(labels)
+	for _, l := range labels {
+		vs := sr.byLabel[l]
+		for i := 0; i+1 < len(vs); i += 2 {
+			if !sameGo(vs[i], vs[i+1]) {
+				return fmt.Sprintf("%s: before the loop %T(%v), after it %T(%v)", l, vs[i], vs[i], vs[i+1], vs[i+1])
+			}
+		}
+	}
+	return ""
+}
+
+func sameGo(a, b any) (same bool) {
+	if a == nil || b == nil {
+		return a == nil && b == nil
+	}
+	ta := reflect.TypeOf(a)
+	if ta != reflect.TypeOf(b) {
+		return false
+	}
+	va, vb := reflect.ValueOf(a), reflect.ValueOf(b)
+	switch ta.Kind() {
+	case reflect.Map, reflect.Ptr, reflect.Func, reflect.Chan, reflect.UnsafePointer:
+		return va.Pointer() == vb.Pointer()
+	case reflect.Slice:
+		return va.Pointer() == vb.Pointer() && va.Len() == vb.Len()
+	}
+	defer func() {
+		if recover() != nil {
+			same = reflect.DeepEqual(a, b)
+		}
+	}()
+	return a == b
+}
+
+// insertSnaps puts a pair of snap tags (for the loop variable and for forloop) around every for / tablerow node that
+// has no trim marker next to it and no else branch.
+func insertSnaps(nodes []any, counter *int) []any {
+	out := []any{}
+	for i, x := range nodes {
+		n := jobj(x)
+		if n == nil {
+			out = append(out, x)
+			continue
+		}
+		m := J{}
+		for k, v := range n {
+			m[k] = v
+		}
+		for _, f := range []string{"body", "else"} {
+			if b, ok := m[f].([]any); ok {
+				m[f] = insertSnaps(b, counter)
+			}
+		}
+		for _, f := range []string{"branches", "whens"} {
+			if bs, ok := m[f].([]any); ok {
+				nb := make([]any, len(bs))
+				for j, b := range bs {
+					bm := J{}
+					for k, v := range jobj(b) {
+						bm[k] = v
+					}
+					if body, ok := bm["body"].([]any); ok {
+						bm["body"] = insertSnaps(body, counter)
+					}
+					nb[j] = bm
+				}
+				m[f] = nb
+			}
+		}
+		trimNext := func(j int) bool {
+			if j < 0 || j >= len(nodes) {
+				return false
+			}
+			t := jstr(jobj(nodes[j]), "t")
+			return t == "trimL" || t == "trimR"
+		}
+		// (not with an else branch: what it assigns is assigned outside any iteration and stays)
+		_, hasElse := m["else"]
+		if jstr(m, "t") == "for" && !hasElse && !trimNext(i-1) && !trimNext(i+1) {
+			*counter++
+			v := bytesOf(m["var"])
+			s1 := J{"t": "snap", "name": bs(v), "label": fmt.Sprintf("L%d.%s", *counter, v)}
+			s2 := J{"t": "snap", "name": bs("forloop"), "label": fmt.Sprintf("L%d.forloop", *counter)}
+			out = append(out, s1, s2, m, s1, s2)
+			continue
+		}
+		out = append(out, m)
+	}
+	return out
 }
 
 func (rs *renderSetup) cleanup() {
@@ -121,7 +238,13 @@ func (rs *renderSetup) cleanup() {
 func prepareRender(c J) (*renderSetup, error) {
 	sp := spellFromJSON(c["spell"])
 	pr := newPrinter(sp)
-	src, err := pr.Template(jarr(c, "prog"))
+	prog := jarr(c, "prog")
+	// (only in programs without whitespace control: a tag between a hyphen and the text it faces is not transparent)
+	if jbool(c, "snaploops") && !strings.Contains(fmt.Sprint(prog), "t:trim") {
+		counter := 0
+		prog = insertSnaps(prog, &counter)
+	}
+	src, err := pr.Template(prog)
 	if err != nil {
 		return nil, err
 	}
@@ -168,6 +291,8 @@ func prepareRender(c J) (*renderSetup, error) {
 		}
 	}
 	eng := liquid.NewEngine()
+	rs.snaps = &snapRecorder{byLabel: map[string][]any{}}
+	eng.RegisterTag("lqh_snap", rs.snaps.tag)
 	if jbool(c, "strict") {
 		eng.StrictVariables()
 	}
@@ -349,6 +474,9 @@ func runRender(c J) J {
 	obs["src"] = bytesJSON(rs.src)
 	obs["text"] = rs.src
 	res := doRender(rs, jstr(c, "entry"))
+	if d := rs.snaps.firstDiff(); d != "" && res.Outcome == "ok" {
+		res = result{Outcome: "snapdiff", Out: res.Out, Msg: d}
+	}
 	res.put(obs)
 	if m, ok := c["mention"].(string); ok && res.Outcome == "error" {
 		obs["msgok"] = len(res.Msg) > 0 && strings.Contains(res.Msg, m)
